@@ -161,6 +161,8 @@ class SimNet:
         self.dns = {}
         self.on_deliver = None   # callable(dg) just before a datagram reaches its listeners
         self.next_host = 1
+        self.hold_transports = False   # True: opening an outside socket waits until the driver resolves it
+        self.pending_transports = []   # (protocol, future)
         if hasattr(self.loop, "simnet"):
             self.loop.simnet = self
 
@@ -282,6 +284,10 @@ class SimNet:
     # ---- outside world for exit sockets (used by VLoop.create_datagram_endpoint / getaddrinfo overrides)
     async def create_datagram_endpoint(self, protocol_factory, local_addr=None, **kw):
         protocol = protocol_factory()
+        if self.hold_transports:
+            fut = self.loop.create_future()
+            self.pending_transports.append((protocol, fut))
+            await fut
         fam = socket.AF_INET6 if local_addr and ":" in local_addr[0] else socket.AF_INET
         tr = OutsideTransport(self, protocol, fam)
         if hasattr(protocol, "connection_made"):
